@@ -118,6 +118,10 @@ def kwDerive : List Char := ['d','e','r','i','v','e']
 def kwDoc : List Char := ['d','o','c']
 def kwLoop : List Char := ['l','o','o','p']
 def kwWhile : List Char := ['w','h','i','l','e']
+def kwReturn : List Char := ['r','e','t','u','r','n']
+def kwBreak : List Char := ['b','r','e','a','k']
+def kwContinue : List Char := ['c','o','n','t','i','n','u','e']
+def kwLet : List Char := ['l','e','t']
 
 /-! ## Rule 12: re-split `x.0.0` -/
 
@@ -416,18 +420,43 @@ def groupHasSemi : Nat → List Tok → Bool
 
 /-! ## Rule 10 (attribute form): `#[doc = "text"]` → `///text` -/
 
-/-- the characters between the quotes of a string literal with the simple escapes resolved
-(`\"` `\\` `\'` `\n` `\t`, a literal line break kept); `none` for anything else (`\x..`, `\u{..}`,
-line continuation, raw strings), which leaves the attribute alone. -/
-def unescape : List Char → Option (List Char)
-  | [] => some []
-  | ['\\'] => none
-  | '\\' :: c :: r =>
-    (if c == '"' || c == '\\' || c == '\'' then (unescape r).map (c :: ·)
-     else if c == 'n' then (unescape r).map ('\n' :: ·)
-     else if c == 't' then (unescape r).map ('\t' :: ·)
+/-- value of the hex digits at the head of `cs` (at most `n` of them) and the rest -/
+def readHex : Nat → Nat → List Char → Nat × List Char
+  | 0, acc, cs => (acc, cs)
+  | _, acc, [] => (acc, [])
+  | n + 1, acc, c :: r =>
+    if isHexDigit c then readHex n (acc * 16 + digitVal c) r else (acc, c :: r)
+
+/-- the characters between the quotes of a string literal with the escapes resolved (`\"` `\\` `\'`
+`\n` `\t` `\r` `\0` `\xNN` `\u{N…}`; a literal line break kept); `none` for a line continuation or
+a malformed escape, which leaves the attribute alone.  `fuel`: at least the length of the text. -/
+def unescapeF : Nat → List Char → Option (List Char)
+  | 0, _ => none
+  | _ + 1, [] => some []
+  | _ + 1, ['\\'] => none
+  | f + 1, '\\' :: c :: r =>
+    (if c == '"' || c == '\\' || c == '\'' then (unescapeF f r).map (c :: ·)
+     else if c == 'n' then (unescapeF f r).map ('\n' :: ·)
+     else if c == 't' then (unescapeF f r).map ('\t' :: ·)
+     else if c == 'r' then (unescapeF f r).map ('\r' :: ·)
+     else if c == '0' then (unescapeF f r).map (Char.ofNat 0 :: ·)
+     else if c == 'x' then
+       (match r with
+        | a :: b :: r' => if isHexDigit a && isHexDigit b then (unescapeF f r').map (Char.ofNat (digitVal a * 16 + digitVal b) :: ·) else none
+        | _ => none)
+     else if c == 'u' then
+       (match r with
+        | '{' :: r' =>
+          let digits := r'.takeWhile (fun x => isHexDigit x || x == '_')
+          let v := (readHex 8 0 (digits.filter (· != '_'))).1
+          (match r'.dropWhile (fun x => isHexDigit x || x == '_') with
+           | '}' :: r'' => (unescapeF f r'').map (Char.ofNat v :: ·)
+           | _ => none)
+        | _ => none)
      else none)
-  | c :: r => if c == '"' then none else (unescape r).map (c :: ·)
+  | f + 1, c :: r => if c == '"' then none else (unescapeF f r).map (c :: ·)
+
+def unescape (cs : List Char) : Option (List Char) := unescapeF (cs.length + 1) cs
 
 def plainStrValue (cs : List Char) : Option (List Char) :=
   match cs with
@@ -437,11 +466,25 @@ def plainStrValue (cs : List Char) : Option (List Char) :=
     | _ => none
   | _ => none
 
+/-- the text of a raw string literal `r"…"` / `r#"…"#` (nothing is escaped in it) -/
+def rawStrValue (cs : List Char) : Option (List Char) :=
+  match cs with
+  | 'r' :: r =>
+    let body := r.dropWhile (· == '#')
+    let n := (r.takeWhile (· == '#')).length
+    (match body with
+     | '"' :: m =>
+       (match (m.reverse.dropWhile (· == '#')) with
+        | '"' :: inner => if (m.reverse.takeWhile (· == '#')).length == n then some inner.reverse else none
+        | _ => none)
+     | _ => none)
+  | _ => none
+
 /-- `#[doc = "text"]` / `#![doc = "text"]` becomes the doc comments that `DocCommentFormatter`
 prints: one `///line` (`//!line`) per line of the value. -/
 def docAttrToks (inner : Bool) (o d e s c : Tok) : Option (List Tok) :=
-  if o.isO '[' && d.isI kwDoc && e.isP '=' && s.cls == ['L','s'] && c.isC ']' then
-    (plainStrValue s.text).map fun v =>
+  if o.isO '[' && d.isI kwDoc && e.isP '=' && (s.cls == ['L','s'] || s.cls == ['L','r']) && c.isC ']' then
+    (if s.cls == ['L','s'] then plainStrValue s.text else rawStrValue s.text).map fun v =>
       (splitLines v).map fun l => ⟨['d'], '/' :: '/' :: (if inner then '!' else '/') :: l⟩
   else none
 
@@ -816,14 +859,49 @@ def headIs (p : Tok → Bool) : List Tok → Bool
   | t :: _ => p t
   | [] => false
 
-/-- Rule 13: `try!(e)` → `e?`. -/
-def ruleTry : Rule := fun _ _ p2 p1 t rest =>
-  if t.isI kwTry then
+/-- `try` or `r#try` -/
+def isTryName (t : Tok) : Bool := t.isI kwTry || (t.cls == ['r'] && t.text == 'r' :: '#' :: kwTry)
+
+/-- a keyword that makes the operand of `try!` something other than a postfix chain (block-like
+expressions `if .. {} else {}`, `match x {}`, `unsafe {}` take a `?` directly) -/
+def isOperandKw (t : Tok) : Bool :=
+  t.isI kwAs || t.isI ['m','o','v','e'] || t.isI kwReturn || t.isI kwBreak || t.isI kwContinue ||
+  t.isI kwLet || t.isI kwIn || t.isI ['y','i','e','l','d'] || t.isI ['s','t','a','t','i','c']
+
+/-- `ts` begins just after the opener of `try!(`: the operand is a postfix chain — at its top level only
+path segments, literals, groups, `.`, `::`, `?`, a `!` after a name, generic arguments after `::<`, and a
+`,` directly before the closer — so `operand?` parses as `(operand)?`.  `p`: previous token, `d`: depth,
+`a`: depth inside `::<…>`. -/
+def simpleOperand : Tok → Nat → Nat → List Tok → Bool
+  | _, _, _, [] => false
+  | p, d, a, t :: ts =>
+    if t.isOpen then simpleOperand t (d + 1) a ts
+    else if t.isClose then (match d with | 0 => true | d' + 1 => simpleOperand t d' a ts)
+    else if d != 0 then simpleOperand t d a ts
+    else if t.isP '<' && (p.isP ':' || a != 0) then simpleOperand t d (a + 1) ts
+    else if t.isP '>' && a != 0 then simpleOperand t d (a - 1) ts
+    else if a != 0 then simpleOperand t d a ts
+    else if (t.cls == ['i'] && !isOperandKw t) || t.cls == ['r'] || (match t.cls with | 'L' :: _ => true | _ => false) then
+      simpleOperand t d a ts
+    else if t.isP '.' && (p.isP '.' || headIs (·.isP '.') ts) then false
+    else if t.isP '.' || t.isP ':' || t.isP '?' then simpleOperand t d a ts
+    else if t.isP '!' && (p.cls == ['i'] || p.cls == ['r']) then simpleOperand t d a ts
+    else if t.isP ',' && headIs (·.isClose) ts then simpleOperand t d a ts
+    else false
+
+/-- Rule 13: `try!(e)` / `try![e]` / `try!{e}` / `r#try!(e)` → `e?` when `e` is a postfix chain, else
+`(e)?` (the parentheses the parse requires); a `,` directly before the closer goes.  Tag 5: inside
+the macro's delimiters. -/
+def ruleTry : Rule := fun enc _ p2 p1 t rest =>
+  if isTryName t then
     (match rest with
-     | b :: o :: _ => if b.isP '!' && o.isO '(' then drop_ else none
+     | b :: o :: _ => if b.isP '!' && o.isOpen then drop_ else none
      | _ => none)
-  else if t.isP '!' && p1.isI kwTry && headIs (·.isO '(') rest then drop_
-  else if t.isO '(' && p1.isP '!' && p2.isI kwTry then some { out := [], close := some [mkP '?'] }
+  else if t.isP '!' && isTryName p1 && headIs (·.isOpen) rest then drop_
+  else if t.isOpen && p1.isP '!' && isTryName p2 then
+    (if simpleOperand t 0 0 rest then some { out := [], close := some [mkP '?'], tag := 5 }
+     else some { out := [mkO '('], close := some [mkC ')', mkP '?'], tag := 5 })
+  else if t.isP ',' && enc == 5 && headIs (·.isClose) rest then drop_
   else none
 
 /-- Rule 9: `vec!(..)` / `vec!{..}` → `vec![..]` (`FORCED_BRACKET_MACROS`). -/
@@ -848,7 +926,8 @@ def ruleVis : Rule := fun _ _ p2 p1 t rest =>
   else if t.isP ':' && p1.isP ':' && p2.isI kwIn then drop_
   else none
 
-/-- Rule 3: `<>`, `::<>`, `for<>`, empty `where`, empty bound list. -/
+/-- Rule 3: `<>`, `::<>`, `for<>`, empty `where`, empty bound list; rule 1 for bound lists: a trailing
+`+` (`T: 'a +>`). -/
 def ruleEmpty : Rule := fun _ _ _ p1 t rest =>
   if t.isP '<' && headIs (·.isP '>') rest then drop_
   else if t.isP '>' && p1.isP '<' then drop_
@@ -857,6 +936,7 @@ def ruleEmpty : Rule := fun _ _ _ p1 t rest =>
      | a :: b :: _ => if a.isP '<' && b.isP '>' then drop_ else none
      | _ => none)
   else if t.isI kwWhere && headIs (fun x => x.isO '{' || x.isP ';') rest then drop_
+  else if t.isP '+' && headIs (fun x => x.isP '>' || x.isP ',' || x.isC ')' || x.isP ';' || x.isI kwWhere) rest then drop_
   else if t.isP ':' then
     (match rest with
      | a :: b :: c :: _ =>
@@ -886,9 +966,22 @@ def armAhead : Nat → Nat → Bool → List Tok → Bool
     else if d == 0 && t.isP '>' then armAhead d (ang - 1) false ts
     else armAhead d ang (t.isP ':') ts
 
-/-- Rule 6: a leading `|` of a match arm. -/
+
+/-- `rest` begins inside a `(`: the matching `)` is followed by a single `=`, a single `:` or `in`
+(the parenthesis is a pattern: `let (| A | B) = x`, `fn f((| A | B): E)`, `for (| A | B) in y`) -/
+def patGroupAhead (rest : List Tok) : Bool :=
+  match afterGroup 0 rest with
+  | some (a :: b :: _) => (a.isP '=' && !b.isP '=' && !b.isP '>') || (a.isP ':' && !b.isP ':') || a.isI kwIn
+  | some [a] => a.isP '=' || a.isP ':' || a.isI kwIn
+  | _ => false
+
+/-- Rule 6: a leading `|` of a match arm, of the pattern of a `let` (`if let | A | B = x`) and of a
+parenthesised pattern. -/
 def rulePipe : Rule := fun _ _ _ p1 t rest =>
-  if t.isP '|' && (p1.isO '{' || p1.isP ',' || p1.isC '}' || p1.isC ']' || p1.isDoc) && armAhead 0 0 false rest then drop_ else none
+  if t.isP '|' && (p1.isO '{' || p1.isP ',' || p1.isC '}' || p1.isC ']' || p1.isDoc) && armAhead 0 0 false rest then drop_
+  else if t.isP '|' && p1.isI kwLet then drop_
+  else if t.isP '|' && p1.isO '(' && patGroupAhead rest then drop_
+  else none
 
 /-- the group that starts after the current opener holds something and no `;` at its top level -/
 def singleExprGroup (rest : List Tok) : Bool :=
@@ -913,9 +1006,6 @@ def ruleBlock : Rule := fun enc _ p2 p1 t rest =>
     some { out := [], close := some [], tag := 1 }
   else none
 
-def kwReturn : List Char := ['r','e','t','u','r','n']
-def kwBreak : List Char := ['b','r','e','a','k']
-def kwContinue : List Char := ['c','o','n','t','i','n','u','e']
 
 /-- `return` / `break` / `continue`: the statements after which `trailing_semicolon` adds or removes `;` -/
 def isJumpKw (t : Tok) : Bool := t.isI kwReturn || t.isI kwBreak || t.isI kwContinue
@@ -1117,7 +1207,7 @@ literal ending in `.`) is printed `(10.).method()`, and with `float_literal_trai
 def ruleLitParen : Rule := fun _ _ _ p1 t rest =>
   if t.isO '(' && startsClosure p1 then
     (match rest with
-     | l :: c :: d :: _ => if isNumLit l && c.isC ')' && d.isP '.' then some { out := [], close := some [] } else none
+     | l :: c :: d :: _ => if isNumLit l && c.isC ')' && (d.isP '.' || d.isP '?') then some { out := [], close := some [] } else none
      | _ => none)
   else none
 
@@ -1154,11 +1244,11 @@ def ruleParen : Rule := fun enc _ _ p1 t rest =>
 
 /-- Rule 13: `a: a` → `a` (an ident, `:`, the same ident, then `,` or `}`). -/
 def ruleFis : Rule := fun _ _ p2 p1 t rest =>
-  if t.isP ':' && p1.cls == ['i'] then
+  if t.isP ':' && (p1.cls == ['i'] || p1.cls == ['r']) then
     (match rest with
      | a :: s :: _ => if a == p1 && (s.isP ',' || s.isC '}') then drop_ else none
      | _ => none)
-  else if t.cls == ['i'] && p1.isP ':' && p2 == t && headIs (fun s => s.isP ',' || s.isC '}') rest then drop_
+  else if (t.cls == ['i'] || t.cls == ['r']) && p1.isP ':' && p2 == t && headIs (fun s => s.isP ',' || s.isC '}') rest then drop_
   else none
 
 def onlyIf (b : Bool) (f : List Tok → List Tok) (ts : List Tok) : List Tok := if b then f ts else ts
@@ -1214,13 +1304,13 @@ def firstDiff (cfg : Cfg) (a b : List Tok) : Option (Nat × Option Tok × Option
 
 The *soft* tokens are the only ones a rule of the pipeline after `regions` may delete or insert:
 all delimiters; the separators `,` `;`; `|` (leading pipe); `<` `>` `:` (empty generic / bound
-lists, `::<>`); the keywords `where`, `for`, `in`; the literal `"C"`; and, only with
+lists, `::<>`); `+` (trailing in a bound list); the keywords `where`, `for`, `in`; the literal `"C"`; and, only with
 `use_try_shorthand`, `try` `!` `?`.  Everything else is *hard*. -/
 def soft (cfg : Cfg) (t : Tok) : Bool :=
   t.isOpen || t.isClose ||
-  t.isP ',' || t.isP ';' || t.isP '|' || t.isP '<' || t.isP '>' || t.isP ':' ||
+  t.isP ',' || t.isP ';' || t.isP '|' || t.isP '<' || t.isP '>' || t.isP ':' || t.isP '+' ||
   t.isI kwWhere || t.isI kwFor || t.isI kwIn || isAbiC t ||
-  (cfg.useTry && (t.isI kwTry || t.isP '!' || t.isP '?'))
+  (cfg.useTry && (isTryName t || t.isP '!' || t.isP '?'))
 
 def hard (cfg : Cfg) (t : Tok) : Bool := !soft cfg t
 
